@@ -183,6 +183,7 @@ pub open spec fn wl_line_delta_fits(from: int, to: int) -> bool {
 /// C13 for one generated row.  `pushed` are the instructions one call appended.  For every base address of the sequence
 /// for which the row's address exists on the target, the machine started in the previous row's registers and run over
 /// exactly `pushed` appends exactly one row, the requested one, and continues in the state the writer remembers.
+#[verifier::opaque]
 pub open spec fn wl_generates(h: LineHdr, base: int, prev: WRow, row: WRow, pushed: Seq<LineOp>) -> bool {
     wl_cond(h, base, prev, row.address_offset) ==> {
         let run = line_run(h, wl_regs(base, prev), pushed);
@@ -194,6 +195,7 @@ pub open spec fn wl_generates(h: LineHdr, base: int, prev: WRow, row: WRow, push
 
 /// C13 for end_sequence: one row with end_sequence set at (address_offset, op_index), every other register as in the
 /// previous row; then the machine is back in its initial state
+#[verifier::opaque]
 pub open spec fn wl_ends(h: LineHdr, base: int, prev: WRow, address_offset: int, op_index: int, pushed: Seq<LineOp>) -> bool {
     wl_cond(h, base, prev, address_offset) ==> {
         let run = line_run(h, wl_regs(base, prev), pushed);
@@ -246,6 +248,7 @@ pub proof fn lemma_wl_at_row(h: LineHdr, prev: WRow, ops: Seq<LineOp>, w: WRow, 
             == (LineStep { err: false, row: Some(wl_regs(base, row)), next: wl_regs(base, wl_after(row)) }),
     ensures forall|base: int| #[trigger] wl_generates(h, base, prev, row, ops.push(op))
 {
+    reveal(wl_generates);
     assert forall|base: int| #[trigger] wl_generates(h, base, prev, row, ops.push(op)) by {
         if wl_cond(h, base, prev, row.address_offset) {
             lemma_run_push(h, wl_regs(base, prev), ops, op);
@@ -264,6 +267,7 @@ pub proof fn lemma_wl_at_end(h: LineHdr, prev: WRow, ops: Seq<LineOp>, w: WRow, 
             == (LineStep { err: false, row: Some(LineRegs { address: base + address_offset, op_index: op_index, end_sequence: true, ..wl_regs(base, prev) }), next: line_initial(h) }),
     ensures forall|base: int| #[trigger] wl_ends(h, base, prev, address_offset, op_index, ops.push(op))
 {
+    reveal(wl_ends);
     assert forall|base: int| #[trigger] wl_ends(h, base, prev, address_offset, op_index, ops.push(op)) by {
         if wl_cond(h, base, prev, address_offset) {
             lemma_run_push(h, wl_regs(base, prev), ops, op);
@@ -426,11 +430,33 @@ pub proof fn lemma_wl_no_underflow(h: LineHdr, s: int, adv: int)
     }
 }
 
+/// `line_add` of the reader's machine (specs/line.rs) behind an opaque name: its `% 2^64` stays out of the writer's
+/// verification conditions; only the lemmas below look inside
+#[verifier::opaque]
+pub open spec fn wl_line_add(line: int, inc: int) -> int {
+    line_add(line, inc)
+}
+
+pub proof fn lemma_wl_line_add_range(line: int, inc: int)
+    requires 0 <= line <= 0xffff_ffff_ffff_ffff
+    ensures 0 <= wl_line_add(line, inc) <= 0xffff_ffff_ffff_ffff
+{
+    reveal(wl_line_add);
+}
+
+pub proof fn lemma_wl_line_add_zero(line: int)
+    requires 0 <= line <= 0xffff_ffff_ffff_ffff
+    ensures wl_line_add(line, 0) == line
+{
+    reveal(wl_line_add);
+}
+
 /// line_add with the exact signed difference reaches the target line
 pub proof fn lemma_wl_line_add(from: int, to: int)
     requires 0 <= from <= 0xffff_ffff_ffff_ffff, 0 <= to <= 0xffff_ffff_ffff_ffff
-    ensures line_add(from, to - from) == to
+    ensures line_add(from, to - from) == to, wl_line_add(from, to - from) == to
 {
+    reveal(wl_line_add);
     if to - from >= 0 {
         lemma_small_mod(to as nat, 0x1_0000_0000_0000_0000);
     }
@@ -531,12 +557,13 @@ pub proof fn lemma_wl_step_special(h: LineHdr, base: int, w: WRow, row: WRow, sl
     requires
         valid_line_hdr(h), wl_row_wf(h, w), wl_row_wf(h, row), wl_ordered(w, row), wl_rest_done(w, row),
         k == wl_op_advance(h, w, row), 0 <= sl < h.line_range, h.opcode_base + sl + k * h.line_range <= 255,
-        line_add(w.line, h.line_base + sl) == row.line, base + row.address_offset <= addr_max(h),
+        wl_line_add(w.line, h.line_base + sl) == row.line, base + row.address_offset <= addr_max(h),
     ensures
         line_step(h, wl_regs(base, w), LineOp::Special(h.opcode_base + sl + k * h.line_range))
             == (LineStep { err: false, row: Some(wl_regs(base, row)), next: wl_regs(base, wl_after(row)) }),
         k >= 0,
 {
+    reveal(wl_line_add);
     let r1 = LineRegs { line: row.line, ..wl_regs(base, w) };
     lemma_wl_advance_lands(h, base, w, row, r1);
     lemma_wl_special_decomp(h, sl, k);
@@ -577,7 +604,7 @@ pub open spec fn wl_sets(op: LineOp, w: WRow, w2: WRow) -> bool {
         LineOp::SetFile(f) => w2 == (WRow { file: f, ..w }),
         LineOp::SetColumn(c) => w2 == (WRow { column: c, ..w }),
         LineOp::SetIsa(i) => w2 == (WRow { isa: i, ..w }),
-        LineOp::AdvanceLine(s) => w2 == (WRow { line: line_add(w.line, s), ..w }),
+        LineOp::AdvanceLine(s) => w2 == (WRow { line: wl_line_add(w.line, s), ..w }),
         _ => false,
     }
 }
@@ -586,6 +613,7 @@ pub proof fn lemma_wl_sets_step(h: LineHdr, base: int, op: LineOp, w: WRow, w2: 
     requires wl_sets(op, w, w2)
     ensures line_step(h, wl_regs(base, w), op) == (LineStep { err: false, row: None, next: wl_regs(base, w2) })
 {
+    reveal(wl_line_add);
 }
 
 /// the operation advance depends on the two positions only
